@@ -28,6 +28,17 @@ OVERLAP_OK = {
 CATCH_ALL = {"GeckoUnhandledProtocolHandler": "discard consumer: accepts everything by design, runs last (C07)"}
 
 
+class _PayloadDependent:
+    def __bool__(self):
+        return True
+
+    def __repr__(self):
+        return "for some payloads"
+
+
+PAYLOAD_DEPENDENT = _PayloadDependent()
+
+
 def F(name, bits):
     return field(name, bits)
 
@@ -179,7 +190,12 @@ def fresh_handler(repo, interp, c, sock=None):
 def can_handle(repo, interp, c, obj, wire):
     fi = repo.method(c.short, "can_handle")
     interp.steps = 0
-    r = interp.call(fi, obj, [wire, SENDER])
+    try:
+        r = interp.call(fi, obj, [wire, SENDER])
+    except Undecided as e:
+        if "depends on the payload" in str(e):
+            return PAYLOAD_DEPENDENT     # truthy: the handler claims the message for some payloads
+        raise
     if not isinstance(r, bool):
         raise Undecided(f"can_handle returned {r!r}")
     return r
